@@ -20,8 +20,8 @@ ASSUMPTIONS = [
     "the number of distance evaluations is evidence only: a legal implementation may evaluate more or fewer",
 ]
 BUDGET = {
-    "quick": {"cases": 2400, "seconds": 60, "shards": 8},
-    "thorough": {"cases": 40000, "seconds": 540, "shards": 16},
+    "quick": {"cases": 9600, "seconds": 90, "shards": 8},
+    "thorough": {"cases": 200000, "seconds": 900, "shards": 16},
 }
 REQUIRED_OBS = ["queries_judged", "early_exit_taken", "full_scan", "tie_label_set>1", "query_is_training_copy", "pre_computed_queries", "semi_queries"]
 MIN_NONTRIVIAL = 100
